@@ -37,12 +37,13 @@ func (l *fsLog) take() []fsEvent {
 
 type vfs struct {
 	inner *storage.MemoryFilesystem
+	void  *storage.MemoryFilesystem // where files created after the crash go: a private map nobody else sees
 	log   *fsLog
 	dead  *atomic.Bool
 }
 
-func newVFS(inner *storage.MemoryFilesystem, log *fsLog) *vfs {
-	return &vfs{inner: inner, log: log, dead: &atomic.Bool{}}
+func newVFS(inner *storage.MemoryFilesystem, void *storage.MemoryFilesystem, log *fsLog) *vfs {
+	return &vfs{inner: inner, void: void, log: log, dead: &atomic.Bool{}}
 }
 
 func uriPath(uri string) string {
@@ -53,7 +54,12 @@ func uriPath(uri string) string {
 	return uri
 }
 
-func (v *vfs) New(path string) storage.File  { return &vfile{File: v.inner.New(path), v: v} }
+func (v *vfs) New(path string) storage.File {
+	if v.dead.Load() {
+		return v.void.New(path)
+	}
+	return &vfile{File: v.inner.New(path), v: v}
+}
 func (v *vfs) Open(path string) storage.File { return &vfile{File: v.inner.Open(path), v: v} }
 func (v *vfs) Copy(src, dst string) error {
 	if v.dead.Load() {
